@@ -183,10 +183,12 @@ def handle_role_null(
 ) -> Tuple[List[tinydocutils.nodes.Node], List[tinydocutils.nodes.Node]]:
     """Handle unnamed roles by raising a warning."""
     target, label = parse_explicit_title(text)
+    # docutils counts lines from one, diagnostics from zero
+    line = max(lineno - 1, 0)
     if label is not None:
-        diagnostic: Diagnostic = IncorrectLinkSyntax((label, target), lineno)
+        diagnostic: Diagnostic = IncorrectLinkSyntax((label, target), line)
     else:
-        diagnostic = IncorrectMonospaceSyntax(target, lineno)
+        diagnostic = IncorrectMonospaceSyntax(target, line)
 
     return (
         [
